@@ -10,10 +10,10 @@ namespace J5V.Bcl
 
 def isCont (b : Nat) : Bool := 0x80 ≤ b && b ≤ 0xBF
 
-abbrev runeError : Rune := 0xFFFD
+abbrev runeError : Nat := 0xFFFD
 
 /-- `utf8.DecodeRune`: the rune at the head of `bs` and the number of bytes it occupies -/
-def decodeOne : List Nat → Rune × Nat
+def decodeOne : List Nat → Nat × Nat
   | [] => (runeError, 0)
   | b0 :: rest =>
     if b0 < 0x80 then (b0, 1)
